@@ -1,6 +1,6 @@
 (* C01 — placeholder while the proofs are being developed (replaced below in this branch). *)
 From ApolloVerif Require Import Base.Chars Parse.Outcome Parse.Limits.
-Theorem C01_tracker_decrement_total : forall t, tr_current t <> 0 -> exists t', tracker_decrement t = Ok t'.
-Proof. intros t H. unfold tracker_decrement. destruct (N.eqb_spec (tr_current t) 0); [contradiction|eauto]. Qed.
-Check C01_tracker_decrement_total : forall t, tr_current t <> 0 -> exists t', tracker_decrement t = Ok t'.
+Theorem C01_tracker_decrement_total : forall t, ptr_current t <> 0 -> exists t', ptracker_decrement t = POk t'.
+Proof. intros t H. unfold ptracker_decrement. destruct (N.eqb_spec (ptr_current t) 0); [contradiction|eauto]. Qed.
+Check C01_tracker_decrement_total : forall t, ptr_current t <> 0 -> exists t', ptracker_decrement t = POk t'.
 Print Assumptions C01_tracker_decrement_total.
